@@ -1723,7 +1723,7 @@ def _c09_stats(cases, impl):
     return dict(d)
 
 
-PROPS['C09'] = _lay_props(['KVerif.Props.C09', 'KVerif.Props.C09V2', 'KVerif.Props.C09V2cap', 'KVerif.Props.C09kan'],
+PROPS['C09'] = _lay_props(['KVerif.Props.C09', 'KVerif.Props.C09V2', 'KVerif.Props.C09V2cap', 'KVerif.Props.C09kan', 'KVerif.Props.C09V2full'],
     'chords v1 (defchords) and v2 (defchordsv2) tables over 2-5 participating keys whose actions are marker keys (11 fixed tables: single chord, with singletons, overlapping, sub-chords, undefined supersets; plus random tables; v2: both release behaviours, entries disabled on the second layer, chords-v2-min-idle variants); for every target set S (|S| >= 2, defined or not): every permutation of the press order x every release order x timing variants (span first-to-last press 0, 1, T-2, T-1, T, T+1, 2T+3 placed before the last press / after the first press / spread; release immediately or after the timeout), exhaustive for |S| <= 4 (v2 families sampled in the quick tier) and sampled for |S| = 5; the same sets typed on the layer where the keys are plain / the chord is disabled; a non-chord key inside the window; the capacity scenario (one chord pressed 9-12 times without release); random physically consistent histories over chord keys, plain keys and the layer key incl. bursts > 32 events; non-trivial = output changed at least twice; distinct = distinct case line. Oracle on the implementation trace. v1: for clean histories the sequence of marker down-transitions equals the greedy decomposition of the press order computed from the table alone (whole set fires once, no participant singleton, two bursts a timeout apart fire separately, a non-chord key inside the window splits it and is delivered in between); no marker on the plain layer. v2: a defined set completed within its timeout fires its marker exactly once (never two copies), no participant key is output, the marker goes up after the first / last participant release per the release rule and not before; completed later than the timeout it does not fire. Both: everything up at the end and within a bound after the last release; keys outside the chords in press order',
     'C09o',
     extra_trusted=['Model/ChordsV2.lean as a transcription of keyberon/src/chord.rs (after the fixes <fix-capacity>, <fix-cooldown>, <fix-double>; the behaviour before them is kept in Model/ChordsV2Pinned.lean for the counterexample theorems only) and of the chords-v2 hooks of Layout::event / Layout::tick (checked differentially per run incl. a digest of the private ChordsV2 state through hook verif_digest_chv2)'],
